@@ -114,6 +114,8 @@ def gen_case(rng, tier):
         op = {"inst": k, "op": kind, "data": rng.randrange(n_data)}
         if insts[k]["type"] == "imager" and rng.random() < 0.2:
             op["alias"] = rng.randrange(4)        # the collection lists one of its array objects a second time
+        if insts[k]["type"] == "imager" and rng.random() < 0.3:
+            op["form"] = rng.choice(("lists", "stack3d", "view", "tuple"))
         if insts[k]["type"] == "imager" and kind in ("transform", "transform2"):
             op["n_jobs"] = rng.choice((None, None, 2, 3, 1))
         ops.append(op)
@@ -286,6 +288,23 @@ def _run(case, sched, world):
         if it["type"] == "imager" and op.get("alias") is not None and X:
             X = X + [X[int(op["alias"]) % len(X)]]       # same object twice (e.g. resampling with replacement)
         Xkeep = [x.copy() for x in X]
+        form = op.get("form") if it["type"] == "imager" else None
+        Xgiven = X
+        if form == "lists":
+            Xgiven = [x.tolist() for x in X]
+        elif form == "tuple":
+            Xgiven = tuple(X)
+        elif form == "view":
+            wide = [np.full((len(x), 4), 99.0) for x in X]
+            for w_, x in zip(wide, X):
+                w_[:, 0:3:2] = x
+            Xgiven = [w_[:, 0:3:2] for w_ in wide]
+        elif form == "stack3d" and len(X) >= 2 and len({len(x) for x in X}) == 1:
+            Xgiven = np.stack(X)
+        from props import c19_api as _api
+        given_digest = _api.digest_args(list(Xgiven) if isinstance(Xgiven, tuple) else Xgiven)
+        X_arrays = X
+        X = Xgiven
         nj = op.get("n_jobs") if it["type"] == "imager" else None
         if nj is not None and (not isinstance(nj, int) or nj == 0):
             raise InvalidCase("n_jobs")
@@ -350,7 +369,7 @@ def _run(case, sched, world):
             before = pub_state(it, est)
             o1 = out_list(it, _call(site, est.transform, X, **kw))
             evals += 1
-            if nj not in (None, 1) and len(X) > 1:
+            if nj not in (None, 1) and len(X_arrays) > 1:
                 par += 1
             after = pub_state(it, est)
             diff = same_state(before, after)
@@ -363,19 +382,22 @@ def _run(case, sched, world):
                 raise Violation("transform-repeatable", site, "differs", "two transforms of the same input differ", opi)
             if it["type"] == "imager":
                 # element by element, in order: image k is the image of diagram k alone
-                for idx, d in enumerate(X):
+                for idx, d in enumerate(X_arrays):
                     single = np.asarray(_call(site, est.transform, d), float)
                     evals += 1
                     if not same_out([o1[idx]], [single]):
-                        other = [q for q in range(len(X)) if q != idx and same_out([o1[idx]], [np.asarray(est.transform(X[q]), float)])]
+                        other = [q for q in range(len(X_arrays)) if q != idx and same_out([o1[idx]], [np.asarray(est.transform(X_arrays[q]), float)])]
                         raise Violation("collection-element-by-element-in-order", site, "order" if other else "value",
                                         "output #%d of the collection is not the image of diagram #%d%s; mode=%s"
                                         % (idx, idx, " (it is the image of #%r)" % other if other else "", world.mode), opi)
         else:
             raise InvalidCase("op")
-        for x, xk in zip(X, Xkeep):
+        for x, xk in zip(X_arrays, Xkeep):
             if x.shape != xk.shape or x.tobytes() != xk.tobytes():
                 raise Violation("input-untouched", "%s.%s" % (tname, kind), "modified", "the input diagrams were modified", opi)
+        if _api.digest_args(list(Xgiven) if isinstance(Xgiven, tuple) else Xgiven) != given_digest:
+            raise Violation("input-untouched", "%s.%s" % (tname, kind), "modified/" + str(form),
+                            "the collection handed over as %s was modified" % form, opi)
         sched.note("op%d %s inst%d data%d -> %s" % (opi, kind, k, j, json.dumps(pub_state(it, est), sort_keys=True)))
     return {
         "evals": evals, "ops": len(case["ops"]),
